@@ -9,6 +9,8 @@ item SUPPLIED by the prover and a DIFFERENT node encoding or stored value of the
 would make the statements vacuous.)
 -/
 import Gossamer.Lib.TrieProofSound
+import Gossamer.Lib.TrieProofComplete
+import Gossamer.Lib.TrieProofMemo
 import Gossamer.Lib.TrieRefine
 namespace Gossamer.C05
 open Gossamer Gossamer.TrieCodec Gossamer.Bridge Gossamer.Trie
@@ -230,5 +232,61 @@ theorem C05_generate_absent_counterexample :
     ∃ (ver : Ver) (H : Bytes → Bytes) (t : Trie) (key : Bytes),
       Trie.get t key = none ∧ generate ver H t [key] = none :=
   ⟨Ver.v0, H0, cexTrie1, [0x03], by decide, by decide⟩
+
+/-! ### completeness -/
+
+/-- **Completeness (trie level).**  If `Generate` returns the proof `N` for the keys `ks` of the state
+    trie `t` (V0 or V1, values on either side of the hashing threshold), then for every requested
+    key `k` holding `v`, `Verify(N, root(t), k, v)` succeeds — or two DIFFERENT honest strings of
+    the state (node encodings, stored values) collide under `H`. -/
+theorem C05_complete (ver : Ver) (H : Bytes → Bytes) (hH : ∀ m, (H m).length = 32) (strict : Bool)
+    (t : Trie) (hw : WFT t) (ks N : List Bytes) (hgen : generate ver H t ks = some N)
+    (k v : Bytes) (hk : k ∈ ks) (hpres : Trie.lookup t (toNibs k) = some v) :
+    verify H strict N (hashTrie ver H t) k v = .ok ∨ CollisionWith ver H (Honest ver H t) t := by
+  rcases injOn_or_collision ver H (Honest ver H t) t with hinj | hc
+  · exact .inl (verify_complete_inj ver H hH strict t hw hinj ks N hgen k v hk hpres)
+  · exact .inr hc
+
+/-- `Generate` succeeds whenever every requested key is present -/
+theorem C05_generate_present (ver : Ver) (H : Bytes → Bytes) (t : Trie) (ks : List Bytes)
+    (h : ∀ k ∈ ks, ∃ x, Trie.lookup t (toNibs k) = some x) : ∃ N, generate ver H t ks = some N :=
+  generateFrom_present ver H t ks ([], []) h
+
+/-- **Completeness against the map the state represents**: for keys of the state, the generated
+    proof exists and lets the verifier confirm each requested entry under the state root. -/
+theorem C05_complete_map (ver : Ver) (H : Bytes → Bytes) (hH : ∀ m, (H m).length = 32) (strict : Bool)
+    {t : Trie} {es : Entries} (hr : Rep t es) (hs : SizesOK es) (ks : List Bytes)
+    (hks : ∀ k ∈ ks, ∃ x, OMap.get k es = some x) :
+    ∃ N, generate ver H t ks = some N ∧
+      ∀ k ∈ ks, ∀ v, OMap.get k es = some v →
+        verify H strict N (specRoot ver H es) k v = .ok ∨ CollisionWith ver H (Honest ver H t) t := by
+  have hroot : specRoot ver H es = hashTrie ver H t := by rw [specRoot, ← hr.eq_build]
+  obtain ⟨N, hN⟩ := C05_generate_present ver H t ks (fun k hk => by
+    obtain ⟨x, hx⟩ := hks k hk
+    exact ⟨x, by rw [hr.lookup_eq]; exact hx⟩)
+  refine ⟨N, hN, fun k hk v hv => ?_⟩
+  rw [hroot]
+  exact C05_complete ver H hH strict t (wft_of_rep hr hs) ks N hN k v hk (by rw [hr.lookup_eq]; exact hv)
+
+/-- the hypotheses are satisfiable and the conclusion is the left disjunct on a concrete state:
+    the three-key state of the counterexample, proof for `1234` and `1f` -/
+example : ∃ N, generate Ver.v0 H0 cexTrie [[0x12, 0x34], [0x1f]] = some N ∧
+    verify H0 false N (hashTrie Ver.v0 H0 cexTrie) [0x12, 0x34] [0xaa] = .ok ∧
+    verify H0 false N (hashTrie Ver.v0 H0 cexTrie) [0x1f] [0xdd] = .ok ∧
+    verify H0 false N (hashTrie Ver.v0 H0 cexTrie) [0x1f] [0xaa] = .mismatch :=
+  ⟨_, rfl, by decide, by decide, by decide⟩
+
+/-! ### the driver runs the functions the theorems are about -/
+
+/-- the driver computes `Generate` on a trie whose node encodings are computed once (`annot`,
+    `generateE`) and the root as the hash of the annotated root: they are `generate` and `hashTrie` -/
+theorem C05_driver_generate (ver : Ver) (H : Bytes → Bytes) (t : Trie) (ks : List Bytes) :
+    generateE ver H (annot ver H t) ks = generate ver H t ks ∧
+    H (annot ver H t).enc = hashTrie ver H t :=
+  ⟨generateE_annot ver H t ks, root_annot ver H t⟩
+
+/-- the driver caches the digest pairs of the current proof: `verify` is `verifyP` on them -/
+theorem C05_driver_verify (H : Bytes → Bytes) (strict : Bool) (nodes : List Bytes) (root key value : Bytes) :
+    verifyP strict (pairsOf H nodes) root key value = verify H strict nodes root key value := rfl
 
 end Gossamer.C05
